@@ -32,9 +32,10 @@ theorem feature_gate_chained :
     "FeatureGate" ∈ handlerChain.takeWhile (fun w => w != "ServerHandler") ∧
     "ServerHandler" ∈ handlerChain := by decide
 
-/-- the gate's table is the model's -/
+/-- the gate's table is the model's (as a set of rows: the order in which a map literal lists
+    its entries means nothing, so a reordering of the source must not break this) -/
 theorem feature_gate_table :
-    featureGateTable =
-      HL.Settings.requestFeature.map fun (m, f) => constantOf m ++ ":" ++ f.goField := by decide
+    featureGateTable.isPerm
+      (HL.Settings.requestFeature.map fun (m, f) => constantOf m ++ ":" ++ f.goField) = true := by decide
 
 end HL.Generated.Expect
